@@ -71,6 +71,7 @@ class Program:
         self.impl = {}             # (type last segment, trait key or None, method) -> item key (first seen)
         self.impl_all = {}         # same key -> [item keys] (name collisions across crates)
         self.enums_by_crate = {}   # crate -> {enum name: variants}
+        self.impl_hdr = {}         # item key -> impl header text
         self.closure_of = {}       # (crate, fn name, local) -> closure def path
         self.closure_zst = {}      # (crate, fn name, bb, kept-line index) -> [def paths of zero-sized closure constants, in order]
         self.crates = []
@@ -291,6 +292,7 @@ class Program:
             if not src or l1 > len(src): continue
             snippet = src[l1 - 1][c1 - 1:c2 - 1] if l1 == l2 else ' '.join([src[l1 - 1][c1 - 1:]] + src[l1:l2 - 1] + [src[l2 - 1][:c2 - 1]])
             snippet = snippet.strip()
+            self.impl_hdr[key] = snippet
             if snippet.startswith('impl'):
                 s = re.sub(r'^impl\s*(<[^>]*>)?\s*', '', snippet)
                 s = re.sub(r'\s+where\s.*$', '', s)
@@ -330,6 +332,17 @@ class Program:
                     return cand if cand in self.items else None
                 return base
             return None
+        mi = re.match(r'^(.*?)::<impl (.+)>::([A-Za-z_0-9]+)$', n)
+        if mi and not mi.group(2).startswith('at '):
+            modp = mi.group(1); modp = re.sub(r'^[a-z_0-9]+::', '', modp) if modp.split('::')[0] in CRATE_ALIAS else modp
+            pat = re.compile(re.escape(modp) + r'::<impl at [^>]*>::' + re.escape(mi.group(3)))
+            cands = [k2 for k2, it in self.items.items() if it.kind == 'fn' and pat.fullmatch(it.name)]
+            if len(cands) > 1:
+                ty = lastseg(re.sub(r'^.* for ', '', mi.group(2)))
+                c2 = [k2 for k2 in cands if (ty, None, mi.group(3)) in self.impl_all and k2 in self.impl_all[(ty, None, mi.group(3))]]
+                if c2: cands = c2
+            if len(cands) == 1: return cands[0]
+            return None
         parts = n.split('::')
         if len(parts) >= 2:
             k = (lastseg(parts[-2]), None, parts[-1])
@@ -340,7 +353,7 @@ class Program:
             modp = re.sub(r'^[a-z_0-9]+::', '', modp) if modp.split('::')[0] in CRATE_ALIAS else modp
             pat = re.compile(re.escape(modp) + r'::<impl at [^>]*>::' + re.escape(meth))
             cands = [k2 for k2, it in self.items.items() if it.kind == 'fn' and pat.fullmatch(it.name)]
-            cands = [k2 for k2 in cands if ty in self.items[k2].header]
+            cands = [k2 for k2 in cands if re.search(r'\b' + re.escape(ty) + r'\b', self.items[k2].header)]
             if len(cands) == 1: return cands[0]
         return None
 
@@ -361,6 +374,52 @@ class Program:
         c3 = [k for k in (c2 or cands) if all(seg in k[1] for seg in mods)] if mods else []
         if len(c3) == 1: return c3[0]
         return None
+
+    def pick_impl(self, type_str, trait_base, method, cur_crate=None):
+        """impl method for a (possibly generic, possibly module-ambiguous) concrete type; None -> trait default; False -> ambiguous"""
+        ty = lastseg(type_str)
+        cands = []
+        for (t, tr, me), ks in self.impl_all.items():
+            if t == ty and me == method and tr and tr.split('<')[0] == trait_base: cands.extend(ks)
+        if not cands: return None
+        base = re.sub(r'<.*', '', type_str.strip().lstrip('&').replace('mut ', '').strip())
+        mods = '::'.join(seg for seg in base.split('::')[:-1] if seg not in CRATE_ALIAS)
+        def same_type(k):
+            m = re.match(r'^(.*?)::<impl at ([^:>]+):(\d+)', k[1])
+            if not m: return True
+            if not mods or m.group(1) == mods: return True
+            # impl written in another module: it is for this type only if that file does not define its own type of that name
+            src = self._src(m.group(2))
+            if src is None: return True
+            return not any(re.search(r'\b(struct|enum)\s+%s\b' % re.escape(ty), line) for line in src)
+        cands = [k for k in cands if same_type(k)]
+        if not cands: return None
+        def norm(t):
+            m = re.search(r'<(.*)>', t)
+            if not m: return ()
+            return tuple(lastseg(a) for a in split_top(m.group(1)) if not a.strip().startswith("'"))
+        want = norm(type_str)
+        if want:
+            c3 = []
+            for k in cands:
+                hdr = self.impl_hdr.get(k, ''); hty = hdr.split(' for ', 1)[-1] if ' for ' in hdr else hdr
+                hn = norm(hty)
+                if hn == want or any(len(x) == 1 and x.isupper() for x in hn): c3.append(k)      # equal args, or a blanket impl over type parameters
+            cands = c3
+            if not cands: return None
+        return cands[0] if len(cands) == 1 else False
+
+    def type_modules(self, tyname):
+        """modules (item-name prefixes) that define inherent/trait impls for a type of this simple name: >1 means the name is ambiguous"""
+        c = self.__dict__.setdefault('_tymods', {})
+        if tyname not in c:
+            mods = set()
+            for (t, tr, me), ks in self.impl_all.items():
+                if t == tyname:
+                    for k in ks:
+                        m = re.match(r'^(.*?)::<impl at ', k[1]); mods.add((k[0], m.group(1) if m else ''))
+            c[tyname] = mods
+        return c[tyname]
 
     def find_fn(self, crate, suffix):
         """Locate a function by unique name suffix (used by kernels to name entry points)."""
